@@ -29,3 +29,18 @@ PROPS["C01"] = {
         "floats as reals (A1): 'up to floating-point rounding' is proved as exact equality over the reals",
     ],
 }
+
+PROPS["C16"] = {
+    "tasks": lambda tier: table_tasks("table_c16", fillers=("posc",)) + [V(UDB + ":UnitDatabase.GetInfo"), V(UDB + ":UnitDatabase.Convert")],
+    "level": "proof",
+    "level_text": "Ground, exhaustive: the real FixUnitIfIsLegacy is executed on all 1548 table symbols (never rewritten) and on every legacy spelling derivable from the substitution list (not registered itself, rewritten to exactly the current symbol, idempotent), and GetDefaultCategory/GetInfo are executed with each spelling on the table registry. Functional: GetInfo's legacy clause and Convert are verified for arbitrary names with fix as an uninterpreted function.",
+    "level_note": "fix(s) for non-literal s is uninterpreted (a pure function of the text); registered symbols are assumed fix-points (invariant F1, established for the shipped table by the ground obligations); Python semantics as implemented by pyvc",
+    "trusted": ["pyvc interpreter (ground evaluation of the real AST)", "z3 5.1.0 for the functional clauses"],
+}
+
+PROPS["C14"] = {
+    "tasks": lambda tier: table_tasks("table_c14"),
+    "level": "proof",
+    "level_text": "(work in progress: shipped tables only) WF of the registry built by each shipped filler, row by row.",
+    "level_note": "history part (mutator contracts) not yet registered",
+}
